@@ -22,7 +22,8 @@ ASSUMPTIONS = ["vectors are 1-d numpy (masked) arrays of equal length, as the fu
 
 FLAGS = [1, 2, 3, 4, 9]
 NONFLAGS_INT = [0, 5, 6, 7, 8, 200]
-NONFLAGS_FLOAT = [0.0, 5.0, 7.0, 200.0, float("nan"), 2.5, -1.0]
+NONFLAGS_SIGNED = [0, 5, 7, 200, -1, -4, -6, -7, -8, -9, 10, 11, 13]
+NONFLAGS_FLOAT = [0.0, 5.0, 7.0, 200.0, float("nan"), 2.5, -1.0, -6.0, -7.0, -8.0, -9.0, 10.0, 1e9]
 
 
 def _cmp():
@@ -33,7 +34,7 @@ def _cmp():
 @st.composite
 def vec(draw, n):
     dtype = draw(st.sampled_from(["uint8", "uint8", "int64", "float64"]))
-    non = NONFLAGS_FLOAT if dtype == "float64" else NONFLAGS_INT
+    non = NONFLAGS_FLOAT if dtype == "float64" else (NONFLAGS_SIGNED if dtype == "int64" else NONFLAGS_INT)
     style = draw(st.sampled_from(["flags", "flags", "mixed", "const"]))
     if style == "const":
         v = draw(st.sampled_from(FLAGS))
